@@ -96,7 +96,17 @@ type progOpts struct {
 	jsSafe     bool // stay inside the subset both backends define (C04)
 	taint      bool
 	directives bool
-	scope      bool // C02: small name pool (shadowing), scope probes, aliases, attribute-style params, more data="all"/data="$e"
+	nastyLits  bool // string literals and map keys with quotes, backslashes, line terminators, </script>, astral runes (C14)
+	core       bool // C04 core subset: no floats, small integers, multiplication mostly by a small literal, range() only as a loop list
+	useIj      bool // some expressions read $ij.n (int) and $ij.s (string)
+	// hooks of the ill-typed/erroring stream (C06); nil = the valid stream, and
+	// no PRNG draw is added, so the other properties' streams are unchanged
+	exprHook  func(g *progGen, env genv, k kind, d int) (string, bool) // may replace any expression
+	dirHook   func(g *progGen) (string, bool)                          // may replace a print's directive suffix
+	spread    bool                                                     // C19: put (most) commands on lines of their own, so that line numbers discriminate
+	allHeader bool                                                     // C19: every template declares its params in the header (no soydoc comment in the file)
+	msgPO     bool                                                     // C11: messages come from progMsgHook (PO-representable shapes), and are frequent
+	scope     bool                                                     // C02: small name pool (shadowing), scope probes, aliases, attribute-style params, more data="all"/data="$e"
 	// options added for C09 (all off by default; none consumes randomness when off)
 	ij          bool                  // some prints read the injected data: {$ij.s}, {$ij.n}
 	customFunc  string                // name of a user-installed int -> int function to call now and then
@@ -112,7 +122,12 @@ type progOpts struct {
 	chainExtra     []string // user-installed non-cancelling directives usable in chains, e.g. "|bang"
 }
 
+// progMsgHook, when set (by a property's tagged file) and progOpts.msgPO is on,
+// generates the {msg} commands; the default generator below is used otherwise.
+var progMsgHook func(g *progGen, env genv, d int) string
+
 type progGen struct {
+	topList bool // the expression being generated is the list of a foreach (core: range() allowed only there)
 	r     *hx.Rand
 	o     progOpts
 	tmpls []*gtemplate
@@ -123,7 +138,19 @@ type progGen struct {
 	alias map[string]map[string]bool // namespace of the caller's file -> namespaces it aliases (scope option)
 }
 
-func (g *progGen) feat(s string)      { g.feats[s]++ }
+func (g *progGen) feat(s string) { g.feats[s]++ }
+
+// nl is a line break between commands when the spread option is on (a text run of white space
+// containing a newline is dropped by the scanner, so the program is the same program).
+func (g *progGen) nl() string {
+	if !g.o.spread {
+		return ""
+	}
+	if g.r.Chance(85) {
+		return "\n"
+	}
+	return ""
+}
 func (g *progGen) pk(ks ...kind) kind { return ks[g.r.Intn(len(ks))] }
 
 func (g *progGen) fresh(prefix string) string {
@@ -133,7 +160,20 @@ func (g *progGen) fresh(prefix string) string {
 
 var strPool = []string{"a", "hello", "x y", "", "<b>", "a&b", "it's", "q\"q", "é", "日本", "line\nbreak", "tab\there", "back\\slash", "1", "0", "true", "</script>", "{", "}"}
 
+var nastyPool = []string{"q\"q", "a'b", "back\\slash", "line\nbreak", "</script>", "\u2028", "\u2029", "\U0001F600", "\u00e9\u00ad", "\x01", "x\ty", "<!--", "]]>", "a\"b'c\\d\r\n", "\\", "'"}
+
+// nastyKey is an extra map-literal entry with a hostile key (only with nastyLits).
+func (g *progGen) nastyKey() string {
+	if !g.o.nastyLits || !g.r.Chance(50) {
+		return ""
+	}
+	return ", " + soyStr(g.r.Pick(nastyPool)) + ": " + g.intLit()
+}
+
 func (g *progGen) strLit() string {
+	if g.o.nastyLits && g.r.Chance(40) {
+		return soyStr(g.r.Pick(nastyPool))
+	}
 	s := g.r.Pick(strPool)
 	for strings.ContainsAny(s, "{}") || (g.o.jsSafe && strings.ContainsAny(s, "\n")) {
 		s = g.r.Pick(strPool)
@@ -142,6 +182,12 @@ func (g *progGen) strLit() string {
 }
 
 func (g *progGen) intLit() string {
+	if g.o.core {
+		if g.r.Chance(20) {
+			return fmt.Sprint(g.r.Intn(1000))
+		}
+		return fmt.Sprint(g.r.Intn(10))
+	}
 	switch g.r.Intn(10) {
 	case 0:
 		return "0"
@@ -161,6 +207,9 @@ func (g *progGen) floatLit() string {
 }
 
 func (g *progGen) paren(s string) string {
+	if g.o.core {
+		return "(" + s + ")" // the operand kinds are the intended ones only if no operator regroups them
+	}
 	if g.r.Chance(25) {
 		return "(" + s + ")"
 	}
@@ -176,8 +225,25 @@ func (g *progGen) use(v gvar) string {
 
 // expr generates an expression of kind k.
 func (g *progGen) expr(env genv, k kind, d int) string {
+	top := g.topList
+	g.topList = false
 	if g.o.illTyped > 0 && g.r.Chance(g.o.illTyped) {
 		k = kind(g.r.Intn(int(kNull) + 1))
+	}
+	if g.o.core && k == kFloat {
+		k = kInt
+	}
+	if g.o.useIj && (k == kInt || k == kStr) && g.r.Chance(8) {
+		g.feat("ij")
+		if k == kInt {
+			return g.r.Pick([]string{"$ij.n", "$ij?.n", "$ij['n']"})
+		}
+		return "$ij.s"
+	}
+	if g.o.exprHook != nil {
+		if s, ok := g.o.exprHook(g, env, k, d); ok {
+			return s
+		}
 	}
 	vars := env.ofKind(k)
 	if d <= 0 || g.r.Chance(30) {
@@ -210,7 +276,7 @@ func (g *progGen) expr(env genv, k kind, d int) string {
 			}
 			return "[" + g.intLit() + "]"
 		case kRec:
-			return "['a': " + g.intLit() + ", 'b': " + g.strLit() + ", 'c': [" + g.intLit() + ", " + g.intLit() + "]]"
+			return "['a': " + g.intLit() + ", 'b': " + g.strLit() + ", 'c': [" + g.intLit() + ", " + g.intLit() + "]" + g.nastyKey() + "]"
 		case kOptInt:
 			if g.r.Bool() {
 				return "null"
@@ -240,6 +306,9 @@ func (g *progGen) expr(env genv, k kind, d int) string {
 			return g.paren(e(kInt) + " - " + e(kInt))
 		case 3:
 			g.feat("mul")
+			if g.o.core && !g.r.Chance(10) {
+				return g.paren(g.atomInt(env, d) + " * " + fmt.Sprint(g.r.Intn(10)))
+			}
 			return g.paren(g.atomInt(env, d) + " * " + g.atomInt(env, d))
 		case 4:
 			g.feat("mod")
@@ -275,6 +344,9 @@ func (g *progGen) expr(env genv, k kind, d int) string {
 			return g.r.Pick([]string{"min", "max"}) + "(" + e(kInt) + ", " + e(kInt) + ")"
 		case 12:
 			g.feat("floor")
+			if g.o.core {
+				return g.r.Pick([]string{"floor", "ceiling", "round"}) + "(" + e(kInt) + ")"
+			}
 			return g.r.Pick([]string{"floor", "ceiling", "round"}) + "(" + e(kFloat) + ")"
 		case 13:
 			if len(env.loops) > 0 {
@@ -349,6 +421,10 @@ func (g *progGen) expr(env genv, k kind, d int) string {
 			}
 			return "true"
 		case 10:
+			if g.o.core {
+				g.feat("lt")
+				return g.paren(e(kInt) + " < " + e(kInt))
+			}
 			g.feat("lt-float")
 			return g.paren(e(kFloat) + " < " + e(kFloat))
 		case 11:
@@ -381,7 +457,11 @@ func (g *progGen) expr(env genv, k kind, d int) string {
 			return g.floatLit()
 		}
 	case kListInt:
-		switch g.r.Intn(5) {
+		c5 := g.r.Intn(5)
+		if g.o.core && !top && c5 < 2 {
+			c5 = 4 // range() is a function only in the Go backend: in the core subset it appears as a loop list only
+		}
+		switch c5 {
 		case 0:
 			g.feat("range")
 			return "range(" + fmt.Sprint(1+g.r.Intn(4)) + ")"
@@ -402,7 +482,7 @@ func (g *progGen) expr(env genv, k kind, d int) string {
 		}
 		return "[" + e(kStr) + ", " + e(kStr) + "]"
 	case kEList:
-		if g.r.Bool() {
+		if g.r.Bool() && (top || !g.o.core) {
 			g.feat("range0")
 			return "range((" + e(kInt) + ") % 3)"
 		}
@@ -412,7 +492,7 @@ func (g *progGen) expr(env genv, k kind, d int) string {
 			g.feat("augmentMap")
 			return "augmentMap(" + g.use(rv[g.r.Intn(len(rv))]) + ", ['a': " + e(kInt) + "])"
 		}
-		return "['a': " + e(kInt) + ", 'b': " + e(kStr) + ", 'c': " + e(kListInt) + "]"
+		return "['a': " + e(kInt) + ", 'b': " + e(kStr) + ", 'c': " + e(kListInt) + g.nastyKey() + "]"
 	case kOptInt:
 		if g.r.Bool() {
 			return "null"
@@ -441,7 +521,12 @@ func (g *progGen) atomBool(env genv, d int) string {
 	return "(" + g.expr(env, kBool, d-1) + ")"
 }
 
-func (r0 *progGen) printable() []kind { return []kind{kInt, kStr, kBool, kFloat, kInt, kStr} }
+func (r0 *progGen) printable() []kind {
+	if r0.o.core {
+		return []kind{kInt, kStr, kBool, kStr, kInt, kStr}
+	}
+	return []kind{kInt, kStr, kBool, kFloat, kInt, kStr}
+}
 
 var rawTexts = []string{"text ", "a b", "<p>", "</p>", " - ", "x", "  two  spaces ", "&amp;", "\n", "line1\n  line2", "é", "\"q\"", "'", "1 < 2"}
 
@@ -489,6 +574,10 @@ func (g *progGen) block(env genv, d int, n int) string {
 	var sb strings.Builder
 	var pendingLets []gvar
 	for i := 0; i < n; i++ {
+		if g.o.msgPO && g.r.Chance(30) {
+			sb.WriteString(g.msg(env, d))
+			continue
+		}
 		if g.o.scope && d > 0 && g.r.Chance(18) {
 			sb.WriteString(g.scopeProbe(env, d))
 			continue
@@ -506,6 +595,11 @@ func (g *progGen) block(env genv, d int, n int) string {
 			if k == kStr {
 				dir = g.directive()
 			}
+			if g.o.dirHook != nil {
+				if s, ok := g.o.dirHook(g); ok {
+					dir = s
+				}
+			}
 			if g.r.Chance(30) {
 				sb.WriteString("{print " + ex + dir + "}")
 			} else {
@@ -513,28 +607,28 @@ func (g *progGen) block(env genv, d int, n int) string {
 			}
 		case c < 11 && d > 0:
 			g.feat("if")
-			sb.WriteString("{if " + g.expr(env, kBool, d-1) + "}" + g.block(env, d-1, 1+g.r.Intn(2)))
+			sb.WriteString("{if " + g.expr(env, kBool, d-1) + "}" + g.nl() + g.block(env, d-1, 1+g.r.Intn(2)))
 			for g.r.Chance(30) {
 				g.feat("elseif")
-				sb.WriteString("{elseif " + g.expr(env, kBool, d-1) + "}" + g.block(env, d-1, 1))
+				sb.WriteString("{elseif " + g.expr(env, kBool, d-1) + "}" + g.nl() + g.block(env, d-1, 1))
 			}
 			if g.r.Bool() {
-				sb.WriteString("{else}" + g.block(env, d-1, 1))
+				sb.WriteString("{else}" + g.nl() + g.block(env, d-1, 1))
 			}
 			sb.WriteString("{/if}")
 		case c < 12 && d > 0:
 			g.feat("switch")
 			k := g.pk(kInt, kStr)
-			sb.WriteString("{switch " + g.expr(env, k, d-1) + "}")
+			sb.WriteString("{switch " + g.expr(env, k, d-1) + "}" + g.nl())
 			for j := 0; j < 1+g.r.Intn(3); j++ {
 				sb.WriteString("{case " + g.expr(env, k, 0))
 				if g.r.Chance(30) {
 					sb.WriteString(", " + g.expr(env, k, 0))
 				}
-				sb.WriteString("}" + g.block(env, d-1, 1))
+				sb.WriteString("}" + g.nl() + g.block(env, d-1, 1))
 			}
 			if g.r.Bool() {
-				sb.WriteString("{default}" + g.block(env, d-1, 1))
+				sb.WriteString("{default}" + g.nl() + g.block(env, d-1, 1))
 			}
 			sb.WriteString("{/switch}")
 		case c < 14 && d > 0:
@@ -552,18 +646,19 @@ func (g *progGen) block(env genv, d int, n int) string {
 				v.name = g.r.Pick(scopeNames)
 				g.noteShadow(env, v.name, "loop")
 			}
-			sb.WriteString("{foreach $" + v.name + " in " + g.expr(env, k, d-1) + "}")
+			g.topList = true
+			sb.WriteString("{foreach $" + v.name + " in " + g.expr(env, k, d-1) + "}" + g.nl())
 			sb.WriteString(g.block(env.withLoop(v), d-1, 1+g.r.Intn(2)))
 			if k == kEList || g.r.Chance(20) {
 				g.feat("ifempty")
-				sb.WriteString("{ifempty}" + g.block(env, d-1, 1))
+				sb.WriteString("{ifempty}" + g.nl() + g.block(env, d-1, 1))
 			}
 			sb.WriteString("{/foreach}")
 		case c < 15 && d > 0:
 			g.feat("for-range")
 			v := gvar{name: "r" + g.fresh(""), k: kInt}
 			args := g.r.Pick([]string{"3", "1, 4", "0, 6, 2", "0"})
-			sb.WriteString("{for $" + v.name + " in range(" + args + ")}" + g.block(env.withLoop(v), d-1, 1) + "{/for}")
+			sb.WriteString("{for $" + v.name + " in range(" + args + ")}" + g.nl() + g.block(env.withLoop(v), d-1, 1) + "{/for}")
 		case c < 17:
 			g.feat("let")
 			k := g.printable()[g.r.Intn(6)]
@@ -596,7 +691,7 @@ func (g *progGen) block(env genv, d int, n int) string {
 			g.feat("let-content")
 			used := false
 			v := gvar{name: "c" + g.fresh(""), k: kStr, used: &used}
-			sb.WriteString("{let $" + v.name + "}" + g.block(env, d-1, 1+g.r.Intn(2)) + "{/let}")
+			sb.WriteString("{let $" + v.name + "}" + g.nl() + g.block(env, d-1, 1+g.r.Intn(2)) + "{/let}")
 			env = env.with(v)
 			pendingLets = append(pendingLets, v)
 		case c < 20 && d > 0:
@@ -615,10 +710,11 @@ func (g *progGen) block(env genv, d int, n int) string {
 			sb.WriteString(g.msg(env, d))
 		case c < 24 && !g.o.noLog && d > 0:
 			g.feat("log")
-			sb.WriteString("{log}" + g.block(env, d-1, 1) + "{/log}")
+			sb.WriteString("{log}" + g.nl() + g.block(env, d-1, 1) + "{/log}")
 		default:
 			sb.WriteString(g.r.Pick(rawTexts))
 		}
+		sb.WriteString(g.nl())
 	}
 	for _, v := range pendingLets {
 		if !*v.used {
@@ -646,6 +742,9 @@ func (g *progGen) block(env genv, d int, n int) string {
 
 func (g *progGen) msg(env genv, d int) string {
 	g.feat("msg")
+	if g.o.msgPO && progMsgHook != nil {
+		return progMsgHook(g, env, d)
+	}
 	var sb strings.Builder
 	sb.WriteString("{msg desc=\"" + g.r.Pick([]string{"d", "a message", ""}) + "\"")
 	if g.r.Chance(20) {
@@ -827,24 +926,24 @@ func (g *progGen) call(env genv, d int) string {
 			g.feat("param-content")
 			if g.o.scope && g.r.Chance(25) {
 				g.feat("param-attr-syntax")
-				params = append(params, "{param key=\""+p.name+"\"}"+g.block(env, d-1, 1)+"{/param}")
+				params = append(params, "{param key=\""+p.name+"\"}"+g.nl()+g.block(env, d-1, 1)+"{/param}"+g.nl())
 			} else {
-				params = append(params, "{param "+p.name+"}"+g.block(env, d-1, 1)+"{/param}")
+				params = append(params, "{param "+p.name+"}"+g.nl()+g.block(env, d-1, 1)+"{/param}"+g.nl())
 			}
 		} else {
 			ex := g.expr(env, k, d-1)
 			if g.o.scope && g.r.Chance(25) && !strings.ContainsAny(ex, "\"\\\n") {
 				g.feat("param-attr-syntax")
-				params = append(params, "{param key=\""+p.name+"\" value=\""+ex+"\" /}")
+				params = append(params, "{param key=\""+p.name+"\" value=\""+ex+"\" /}"+g.nl())
 			} else {
-				params = append(params, "{param "+p.name+": "+ex+" /}")
+				params = append(params, "{param "+p.name+": "+ex+" /}"+g.nl())
 			}
 		}
 	}
 	if len(params) == 0 {
 		sb.WriteString(" /}")
 	} else {
-		sb.WriteString("}" + strings.Join(params, "") + "{/call}")
+		sb.WriteString("}" + g.nl() + strings.Join(params, "") + "{/call}")
 	}
 	return sb.String()
 }
@@ -885,6 +984,9 @@ func genBundle(r *hx.Rand, o progOpts) (files []srcFile, entry string, dataSets 
 	recPool := []gparam{{"a", kInt, false}, {"b", kStr, false}, {"c", kListInt, false}, {"opt", kOptInt, true}, {"v", kOptInt, true}}
 	for i := 0; i < nT; i++ {
 		t := &gtemplate{short: fmt.Sprintf("t%d", i), header: r.Chance(30)}
+		if o.allHeader {
+			t.header = true
+		}
 		t.ns = nss[r.Intn(len(nss))]
 		if i == 0 {
 			t.ns = nss[0]
@@ -915,6 +1017,9 @@ func genBundle(r *hx.Rand, o progOpts) (files []srcFile, entry string, dataSets 
 		}
 		for j := 0; j < np; j++ {
 			p := pool[r.Intn(len(pool))]
+			if o.core && p.k == kFloat {
+				continue
+			}
 			if !seen[p.name] {
 				seen[p.name] = true
 				t.params = append(t.params, p)
@@ -1062,6 +1167,9 @@ func attrSrcG(a string) string {
 func genValue(r *hx.Rand, k kind, o progOpts) data.Value {
 	switch k {
 	case kInt:
+		if o.core {
+			return data.Int([]int64{0, 1, 2, 3, 7, -1, -5, 42, 100, 999}[r.Intn(10)])
+		}
 		return data.Int([]int64{0, 1, 2, 3, 7, -1, -5, 42, 1 << 33, (1 << 52) + 1}[r.Intn(10)])
 	case kStr:
 		s := strPool[r.Intn(len(strPool))]
